@@ -176,8 +176,9 @@ Section Update.
                                  then Err (XIncompatible (e_path kept)) else
                                  let l1 := match e, kept with
                                            | EFile _ _ _ _ c, EFile kt kp ka ks kc =>
-                                               set_entry_at l0 kmpath kid
-                                                 (EFile kt kp ka ks (fold_left (fun acc kv => dict_set (fst kv) (snd kv) acc) c kc))
+                                               (* the preserved entry has changed: its Manifest is queued too *)
+                                               add_updated (set_entry_at l0 kmpath kid
+                                                 (EFile kt kp ka ks (fold_left (fun acc kv => dict_set (fst kv) (snd kv) acc) c kc))) kmpath
                                            | _, _ => l0
                                            end in
                                  (* the duplicate is removed later, by value, as it is then *)
